@@ -30,6 +30,7 @@ RULE_TEXT = (
     'statement inside an applying_evolution bracket or created a model. '
     'Distinct = distinct shape digest (sorted mutation kinds+changed attrs, '
     'field kinds, Meta features, path hand-written/hinted).')
+RULE_TEXT += ' Dedicated families (4% each): relations added between same-named models of two apps; column type changes that do not restate null / unique / db_index.'
 ASSUMPTIONS = [
     'SQLite 3.40 / Django 4.2 behave as documented',
     'fresh-schema oracle = django schema_editor.create_model on an empty db',
